@@ -15,26 +15,24 @@ class Checker:
     def __init__(self, unit, tier='quick', timeout_s=60, semantics='bv'):
         self.unit = unit; self.tier = tier; self.timeout_s = timeout_s; self.semantics = semantics
         self.obs = []; self.inconclusive = []; self.vacuity = []; self.functions = set(); self.paths = {}
-        self.queries = 0; self.solver_s = 0.0; self.selfchecks = []; self.notes = []; self.errors = []
+        self.queries = 0; self.solver_s = 0.0; self.solvers_used = {}; self._seen_mem = set(); self.selfchecks = []; self.notes = []; self.errors = []
         self.t0 = time.time()
     # --- core
     def _solve(self, pc, extra, timeout_s=None, tactic=None):
-        sol = z3.Solver() if tactic is None else z3.Then(*tactic).solver() if isinstance(tactic, (list, tuple)) else z3.Tactic(tactic).solver()
-        sol.set('timeout', int(1000 * (timeout_s or self.timeout_s)))
-        sol.add(*pc); sol.add(*extra)
-        t = time.time(); r = sol.check(); dt = time.time() - t
+        from . import smt
+        t = time.time()
+        r, model, info = smt.solve(list(pc) + list(extra), timeout_s or self.timeout_s, tactic=tactic)
+        dt = time.time() - t
         self.queries += 1; self.solver_s += dt
-        return r, sol, dt
+        if info.get('solver', 'z3') != 'z3': self.solvers_used[info['solver']] = self.solvers_used.get(info['solver'], 0) + 1
+        return r, model, dt, info
     def prove(self, name, pc, claim, site=None, decode=None, replay=None, semantics=None, timeout_s=None, sample=None, tactic=None, kind='post'):
         """claim must hold under pc. sat => counterexample (decoded, replayed)."""
-        r, sol, dt = self._solve(pc, [z3.Not(claim)], timeout_s, tactic)
-        ob = {'name': name, 'site': site or name, 'status': str(r), 'time_s': round(dt, 3), 'semantics': semantics or self.semantics, 'kind': kind}
-        if sample is not None: ob['sample'] = sample
-        else:
-            try: ob['sample'] = ('%s: %s' % (name, z3.simplify(claim).sexpr()))[:300]
-            except Exception: ob['sample'] = name
-        if r == z3.sat:
-            m = sol.model()
+        r, m, dt, info = self._solve(pc, [z3.Not(claim)], timeout_s, tactic)
+        ob = {'name': name, 'site': site or name, 'status': r, 'time_s': round(dt, 3), 'semantics': semantics or self.semantics, 'kind': kind}
+        if info.get('solver', 'z3') != 'z3': ob['solver'] = info['solver']
+        ob['sample'] = sample if sample is not None else '%s [site %s; %d path constraints]' % (name, site or name, len(pc))
+        if r == 'sat':
             try:
                 ob['witness'] = decode(m) if decode else {str(d): str(m[d]) for d in m.decls()[:40]}
             except Exception as e:
@@ -48,15 +46,15 @@ class Checker:
                     ob['replay'] = 'replay-error'; ob['replay_detail'] = traceback.format_exc()[-1500:]
             else:
                 ob['replay'] = 'no-replay'
-        elif r == z3.unknown:
-            ob['reason'] = sol.reason_unknown()
+        elif r == 'unknown':
+            ob['reason'] = str(info)[:200]
         self.obs.append(ob)
-        return r
+        return {'sat': z3.sat, 'unsat': z3.unsat}.get(r, z3.unknown)
     def reach(self, name, pc, extra=(), timeout_s=None):
         """vacuity twin: the assumptions (and the point of the assertion) must be satisfiable"""
-        r, sol, dt = self._solve(pc, list(extra), timeout_s)
-        self.vacuity.append({'name': name, 'status': str(r), 'time_s': round(dt, 3)})
-        return r == z3.sat
+        r, m, dt, info = self._solve(pc, list(extra), timeout_s)
+        self.vacuity.append({'name': name, 'status': r, 'time_s': round(dt, 3)})
+        return r == 'sat'
     def note_results(self, ex, results, allowed=('return', 'error', 'infeasible')):
         """record path kinds; unsupported/unwind paths make the unit inconclusive"""
         for r in results:
@@ -67,7 +65,7 @@ class Checker:
         self.queries += ex.nq; self.solver_s += ex.tq
     def memory_obligations(self, results, site_prefix='', replay=None, decode=None, kinds=('mem',), dedupe=True, timeout_s=None):
         """discharge the bounds/null obligations collected on every path"""
-        seen = set(); n = 0
+        seen = self._seen_mem; n = 0
         for r in results:
             for ob in r.state.obls:
                 pc, claim, what, kind, site = ob
@@ -85,7 +83,7 @@ class Checker:
     def report(self):
         return {'unit': self.unit, 'obligations': self.obs, 'inconclusive': self.inconclusive, 'vacuity': self.vacuity,
                 'functions': sorted(self.functions), 'paths': self.paths, 'queries': self.queries, 'solver_s': round(self.solver_s, 3),
-                'selfchecks': self.selfchecks, 'notes': self.notes, 'errors': self.errors, 'wall_s': round(time.time() - self.t0, 2)}
+                'selfchecks': self.selfchecks, 'solvers_used': self.solvers_used, 'notes': self.notes, 'errors': self.errors, 'wall_s': round(time.time() - self.t0, 2)}
 
 
 # ------------------------------------------------------------------ parallel scheduling
